@@ -638,6 +638,28 @@ pub fn run_damage(case: &Case, dir: PathBuf) -> Outcome {
             });
             evals += 1;
             stats.inc("damage_states");
+            // which batch does the byte belong to, and which field?
+            let field = {
+                let mut start = 0u64;
+                let mut field = String::from("?");
+                for (b, _) in &bounds {
+                    if i < *b {
+                        let rel = i - start;
+                        field = if rel == 0 {
+                            "start tag".into()
+                        } else if rel < 5 {
+                            "start marker: item count".into()
+                        } else if rel < 13 {
+                            "start marker: seqno".into()
+                        } else {
+                            format!("offset {rel} inside the batch")
+                        };
+                        break;
+                    }
+                    start = *b;
+                }
+                field
+            };
             match open_state(&work, &case.cfg, case.cfg.journal_lz4) {
                 Err(e) => {
                     if e.starts_with("PANIC") {
@@ -652,26 +674,39 @@ pub fn run_damage(case: &Case, dir: PathBuf) -> Outcome {
                         if real == final_state {
                             stats.inc("damage_not_noticed_full_state");
                         }
-                    } else {
-                        // which batch does the byte belong to, and which field?
-                        let mut start = 0u64;
-                        let mut field = String::from("?");
-                        for (b, _) in &bounds {
-                            if i < *b {
-                                let rel = i - start;
-                                field = if rel == 0 {
-                                    "start tag".into()
-                                } else if rel < 5 {
-                                    "start marker: item count".into()
-                                } else if rel < 13 {
-                                    "start marker: seqno".into()
-                                } else {
-                                    format!("offset {rel} inside the batch")
+                        // the database that came out of the damaged journal must be healthy: a
+                        // later commit is recoverable (sampled: every 4th such state)
+                        if evals % 6 == 0 || matches!(case.fault, Fault::Damage { at: Some(_), .. }) {
+                            if let Some(ks) = real.keys().next().copied() {
+                                let r = std::panic::catch_unwind(std::panic::AssertUnwindSafe(|| -> Result<(), String> {
+                                    let mut inst = crate::inst::Instance::open_with(&work, &case.cfg, case.cfg.journal_lz4, 0)?;
+                                    inst.open_ks(&case.cfg, ks as usize, &case.cfg.opts[ks as usize])?;
+                                    inst.k(ks).unwrap().insert("zz-after-damage", "appended").map_err(|e| format!("{e:?}"))?;
+                                    drop(inst);
+                                    let mut want2 = real.clone();
+                                    want2.get_mut(&ks).unwrap().insert(b"zz-after-damage".to_vec(), b"appended".to_vec());
+                                    let real2 = faults::read_dir_state(&work, &case.cfg)?;
+                                    if real2 != want2 {
+                                        return Err(format!("{} instead of {}", faults::brief_maps(&real2), faults::brief_maps(&want2)));
+                                    }
+                                    Ok(())
+                                }));
+                                stats.inc("append_after_damage_checked");
+                                let bad = match r {
+                                    Ok(Ok(())) => None,
+                                    Ok(Err(e)) => Some(e),
+                                    Err(_) => Some("panic".to_string()),
                                 };
-                                break;
+                                if let Some(e) = bad {
+                                    violation = Some(Violation::new(
+                                        "commit-after-damage-lost",
+                                        format!("byte {i} of the journal changed {ob:#04x}->{nb:#04x} [{field}]: the first open recovers a prefix state, but a commit made afterwards is not recovered by the next open: {e}"),
+                                    ));
+                                    narrowed = Some(Fault::Damage { at: Some((i, p)), all_values });
+                                }
                             }
-                            start = *b;
                         }
+                    } else {
                         violation = Some(Violation::new(
                             "damage-read-as-different-data",
                             format!(
